@@ -62,9 +62,17 @@ int vnaproperty_import_yaml_from_file(vnaproperty_t **rootptr, FILE *fp,
     }
     yaml_parser_set_input_file(&parser, fp);
     if (!yaml_parser_load(&parser, &document)) {
-	_vnaproperty_yaml_error(&vyml, VNAERR_SYNTAX, "%s (line %ld) error: %s",
-		vyml.vyml_filename, (long)parser.problem_mark.line + 1,
-		parser.problem);
+	if (parser.error == YAML_MEMORY_ERROR) {
+	    errno = ENOMEM;
+	    _vnaproperty_yaml_error(&vyml, VNAERR_SYSTEM,
+		    "yaml_parser_load: %s: %s",
+		    vyml.vyml_filename, strerror(errno));
+	} else {
+	    _vnaproperty_yaml_error(&vyml, VNAERR_SYNTAX,
+		    "%s (line %ld) error: %s",
+		    vyml.vyml_filename, (long)parser.problem_mark.line + 1,
+		    parser.problem);
+	}
 	goto error;
     }
     delete_document = true;
